@@ -124,15 +124,26 @@ def rule_prune(ctx):
         keyv = norm(lp.target.elts[0]) if isinstance(lp.target, ast.Tuple) else norm(lp.target)
         decs = [s for s in lp.body if isinstance(s, ast.Assign) and isinstance(s.value, ast.Call) and norm(s.value.func) == 'unpack_be_uint32'
                 and norm(s.value.args[0]) == f'{keyv}[-4:]']
-        brk = [s for s in lp.body if isinstance(s, ast.If) and any(isinstance(x, ast.Break) for x in s.body)]
-        cond_ok = False
-        if len(decs) == 1 and len(brk) == 1:
-            hv = norm(decs[0].targets[0].elts[0]) if isinstance(decs[0].targets[0], ast.Tuple) else None
-            cn = q.comparison_normal(ctx, f, brk[0].test)
-            cond_ok = cn is not None and cn[1] == '>=' and q.lin_eq(cn[0], {hv: 1, mv: -1, '': 0})
+        # per path through one row: height >= threshold => the scan stops, nothing collected; otherwise the key is collected
+        from .. import paths as P
         app = [c for c in walk_own(lp) if isinstance(c, ast.Call) and isinstance(c.func, ast.Attribute) and c.func.attr == 'append'
                and norm(c.args[0]) == keyv]
-        after = len(app) == 1 and brk and q.stmt(app[0]).lineno > brk[0].lineno and q.stmt(app[0]) in lp.body
+        cond_ok = len(decs) == 1 and len(app) == 1
+        after = cond_ok
+        n_stop = n_take = 0
+        for pth in P.paths(lp.body) if cond_ok else []:
+            hexpr = f'{norm(decs[0].value)}[0]'
+            keep = P.decided(ctx, f, pth, f'{hexpr} >= {mv}')
+            took = any(st_ is q.stmt(app[0]) for st_, _e in pth.events)
+            if keep is None:
+                cond_ok = False
+            elif keep:
+                n_stop += 1
+                after = after and pth.exit == 'break' and not took
+            else:
+                n_take += 1
+                after = after and took and pth.exit in ('fall', 'continue')
+        cond_ok = cond_ok and n_stop >= 1 and n_take >= 1
         ok = pref_ok and cond_ok and after
         why = f"prefix b'U' ok={pref_ok}, stops at the first height >= threshold ok={cond_ok}, collects the rest ok={bool(after)}"
     ctx.check(ok, 'C15.PRUNE', ctx.key(f, None, 'selection'),
